@@ -7,7 +7,26 @@
 From Coq Require Import List ZArith NArith Bool Arith.
 Import ListNotations.
 From RV Require Import Lib.Str Model.DataFile Proofs.DataFileP.
-From RV Require Import Gen.GenFactsPersist.
+From RV Require Import Gen.GenFactsPersist Model.Bytes Proofs.BytesP.
+
+(** From bytes to lines.  The file is a sequence of LF-terminated lines whose own text holds neither LF
+    nor CR (the column codec escapes them, C07; checked on every real file by harness/c09.py), read in
+    text mode with universal newlines (Model/Bytes.v, compared with CPython's line iteration).  Then
+    EVERY byte prefix reads as: the first j lines, complete, followed by at most one last line
+    without a line end, which is a prefix of line j+1 (possibly all of it: the cut just before its
+    line end).  This is what the line-level theorems below call `torn_now file app j g`: g = GNone iff
+    that partial line is absent. *)
+Theorem C09_byte_prefix_is_line_prefix :
+  forall (A : Type) (render : A -> str), (forall a, nl_free (render a)) ->
+  forall ls k, k <= length (text_of render ls) ->
+  exists j p,
+    j <= length ls /\
+    firstn k (text_of render ls) = text_of render (firstn j ls) ++ p /\
+    read_lines (firstn k (text_of render ls)) =
+      map (fun a => (render a, true)) (firstn j ls) ++ (match p with [] => [] | _ => [(p, false)] end) /\
+    (p = [] \/ exists a m, nth_error ls j = Some a /\ p = firstn m (render a) /\ p <> []).
+Proof. intros A render H. exact (byte_prefix_reads_as_line_prefix render H). Qed.
+Print Assumptions C09_byte_prefix_is_line_prefix.
 
 (** Right after the crash, for every cut: the file loads, and exactly the data points whose lines
     arrived completely are there - each once, whole, for the right run (j of them, where the lines
